@@ -227,6 +227,6 @@ def gen_lines(n, seed):
     seeds = [rng.randrange(2**31) for _ in range(n)]
     per = max(1, n // 32)
     jobs = [(seeds[i:i + per], i * 8) for i in range(0, n, per)]
-    with mp.get_context("fork").Pool(common.NCPU) as pool:
+    with common.pool(common.NCPU) as pool:
         out = pool.map(_chunk, jobs)
     return [x for ch in out for x in ch]
